@@ -469,6 +469,35 @@ impl<'a> VisitMut for Rules<'a> {
                 }
             }
         }
+        // vec! macros: the token stream is opaque to the other rules, so it is re-parsed.  `vec![e; n]` becomes the trusted
+        // wrapper vx_vec_repeat(e, n) (R7: std meaning); `vec![a, b, ..]` keeps its form with the rules applied to the elements
+        if let syn::Expr::Macro(m) = e {
+            if m.mac.path.is_ident("vec") && !m.mac.tokens.is_empty() {
+                struct Rep { e: syn::Expr, n: syn::Expr }
+                impl syn::parse::Parse for Rep {
+                    fn parse(input: syn::parse::ParseStream) -> syn::Result<Self> {
+                        let e: syn::Expr = input.parse()?;
+                        let _: syn::Token![;] = input.parse()?;
+                        let n: syn::Expr = input.parse()?;
+                        Ok(Rep { e, n })
+                    }
+                }
+                if let Ok(r) = syn::parse2::<Rep>(m.mac.tokens.clone()) {
+                    let (el, n) = (r.e, r.n);
+                    *e = syn::parse_quote!(vx_vec_repeat(#el, #n));
+                    self.ctx.used("R7");
+                    syn::visit_mut::visit_expr_mut(self, e);
+                    return;
+                }
+                let parser = syn::punctuated::Punctuated::<syn::Expr, syn::Token![,]>::parse_terminated;
+                if let Ok(list) = syn::parse::Parser::parse2(parser, m.mac.tokens.clone()) {
+                    let mut items: Vec<syn::Expr> = list.into_iter().collect();
+                    for it in items.iter_mut() { self.visit_expr_mut(it); }
+                    m.mac.tokens = quote!(#(#items),*);
+                    return;
+                }
+            }
+        }
         // R28: `E.map_err(|e| BODY)?`  ->  `match E { Ok(v) => v, Err(e) => return Err(BODY) }`
         // (the function's error type is the closure's result type, so `?` converts with the identity From)
         if self.ctx.on("R28") {
@@ -741,6 +770,24 @@ impl<'a> VisitMut for Rules<'a> {
                             }
                         }
                     }
+                }
+            }
+        }
+        // R30: `P |= E` / `P &= E` on booleans (not in the verifier's subset) -> `{ let t = E; P = P || t; }` / `&&`
+        // (E is still evaluated exactly once, before the update)
+        if self.ctx.on("R30") {
+            if let syn::Expr::Binary(b) = e {
+                let op: Option<syn::BinOp> = match b.op {
+                    syn::BinOp::BitOrAssign(_) => Some(syn::parse_quote!(||)),
+                    syn::BinOp::BitAndAssign(_) => Some(syn::parse_quote!(&&)),
+                    _ => None,
+                };
+                if let Some(op) = op {
+                    let l = &b.left;
+                    let r = &b.right;
+                    *e = syn::parse_quote!({ let vx_b = #r; #l = #l #op vx_b; });
+                    self.ctx.used("R30");
+                    return;
                 }
             }
         }
